@@ -362,7 +362,14 @@ def main_cli(V, config, sysc, memm):
     err = None
     # the compiler is started from an arbitrary directory: not the one the module was imported from ("bundled" must not depend on it)
     cwd0 = os.getcwd()
-    os.chdir(next(d for d in ("/usr/lib", "/usr/share", "/var/tmp", os.path.sep) if os.path.isdir(d)))
+    # a freshly made directory nested deeper than the directory the module was imported from: a path kept RELATIVE to the import-time directory
+    # then resolves to a different place (from a shallower directory surplus ".." components are absorbed at the root and hide the difference)
+    import tempfile
+
+    foreign_root = tempfile.mkdtemp(prefix="c18_cwd_")
+    foreign = os.path.join(foreign_root, *(["d"] * (len(cwd0.split(os.path.sep)) + 3)))
+    os.makedirs(foreign)
+    os.chdir(foreign)
     try:
         with core.shims((vela, {"print": lambda *a, **k: None})):
             rc = vela.main(argv)
@@ -380,6 +387,9 @@ def main_cli(V, config, sysc, memm):
         got_abs = [os.path.abspath(p_) for c in calls if c[0] in ("imx93", "generic") for p_ in (c[1].get("vela_config_files") or [])]
         run_dir = os.getcwd()
         os.chdir(cwd0)
+        import shutil
+
+        shutil.rmtree(foreign_root, ignore_errors=True)
     ctor = [c for c in calls if c[0] in ("imx93", "generic")]
     cfgn = os.path.normpath(config) if config is not None else None
     # OPTIONS.md: "Dir/file.ini" names a file in the bundled configuration directory; files elsewhere are given by (absolute) path
